@@ -56,6 +56,30 @@ def call_try_send_batch(pipe, items):
     return f
 
 
+PMS = "socket::patterns::ready_pipe_queue::PipeMessageSender"
+
+
+def call_try_send_batch_filtered(pipe, items):
+    """PipeMessageSender::FilteredAnonymous.try_send_batch (the SUB ingress path): its own copy of the batched
+    enqueue loop. Every item matches the subscription (SubscriptionTrie::matches = true); items stay opaque ids."""
+    def f(it, st):
+        from ..mirsym.models import none
+        prog = it.prog
+        for ty, me, val in (("message::FrameBatch", "first", lambda it2, a, d, fn: none()),
+                            ("message::FrameBatch", "len", lambda it2, a, d, fn: 1),
+                            ("socket::patterns::trie::SubscriptionTrie", "matches", lambda it2, a, d, fn: True)):
+            fn = prog.resolve_method("", ty, me, None)
+            assert fn, (ty, me)
+            it.hooks[fn] = val
+        variants = prog.enum_variants(PMS)
+        vi = variants.index("FilteredAnonymous")
+        pms = Enum(PMS, vi, "FilteredAnonymous", [st[1][pipe].load(), BoxV(Cell(Opaque("trie"), "trie"), ())])
+        dq = Ref(Cell(Seq("vecdeque", list(items), "?"), "items"), ())
+        r = it.run_body(_method(it, PMS, "try_send_batch"), [Ref(Cell(pms, "pms"), ()), dq])
+        return ("batch", r, len(dq.load().f))
+    return f
+
+
 def call_pop():
     return lambda it, st: _poll_async(it, RPQ, "pop", [st[0]])
 
